@@ -34,8 +34,21 @@ def mk_dataset(c, cls=GDS, **extra):
     return o, D0, s
 
 
+def _directed_scaling():
+    """concrete forecast files with sequences of scale / scale_to_test_date calls (conventions of rt/oracles_io.forecast_ascii)"""
+    two = [[0, 0], [1, 0], [0, 1]]
+    base = {'lon0': '10', 'lat0': '40', 'dh': '0.5', 'cells': two, 'mags': ['4.95', '5.05'], 'dmag': '0.1',
+            'start': '2020-01-01 00:00:00', 'end': '2021-01-01 00:00:00'}
+    fam = []
+    for ops in ([['scale', 2.0], ['scale', 3.0]], [['scale', 0.5], ['date', '2020-07-01 00:00:00'], ['scale', 4.0]],
+                [['scale', 3.0], ['date', '2022-01-01 00:00:00']], [['date', '2020-03-01 00:00:00'], ['date', '2020-09-01 00:00:00']]):
+        fam.append(('forecast_ascii', dict(base, ops=ops)))
+    return fam
+
+
 @contract
 class Scale:
+    directed = staticmethod(_directed_scaling)
     qualname = GDS + '.scale'
     case = 'scalar factor'
     properties = ('C11',)
@@ -73,6 +86,7 @@ class Data:
 @contract
 class ScaleTwice:
     """object invariant as a lemma over the real bodies: after any two scale calls data = D0 * last factor"""
+    directed = staticmethod(_directed_scaling)
     qualname = 'lemma:' + GDS + '.scale;scale;data'
     case = 'two consecutive scale calls'
     properties = ('C11',)
